@@ -246,7 +246,8 @@ def run_case(case) -> Result:
         except Exception as e:  # noqa
             exc = e
         reads = vclock.reads
-    stepped = reads >= 2 and any(x >= 1 for x in case["inc"][:max(1, reads)]) or (reads >= 2 and sum(case["inc"]) >= 1 and reads > len(case["inc"]))
+    # classified by the generated schedule alone (an implementation need not consult the wall clock at all)
+    stepped = any(x >= 1 for x in case["inc"]) or sum(case["inc"]) >= 1
     if stepped:
         classes.add("clock_steps")
     nontrivial = bool(stepped or st8["effective"])
